@@ -222,6 +222,17 @@ func (t *Trace) Fail(property, monitor, msg string) {
 	fmt.Fprintln(t.mon, string(b))
 }
 
+// Abort ends the driver run at once (a call into the implementation never
+// returned, so the history cannot be continued): what was recorded so far,
+// monitor failures included, is kept and the process exits normally.
+func (t *Trace) Abort(reason string) {
+	t.Notes["aborted: "+reason]++
+	t.Close(summaryPathOf)
+	os.Exit(0)
+}
+
+var summaryPathOf string
+
 func (t *Trace) Close(summaryPath string) error {
 	if err := t.w.Flush(); err != nil {
 		return err
@@ -257,6 +268,7 @@ func Main(run func(t *Trace, r *Rand, n int)) {
 		fmt.Fprintln(os.Stderr, err)
 		os.Exit(2)
 	}
+	summaryPathOf = *out + ".summary.json"
 	run(t, NewRand(*seed), *n)
 	if err := t.Close(*out + ".summary.json"); err != nil {
 		fmt.Fprintln(os.Stderr, err)
